@@ -568,6 +568,8 @@ pub enum Fatal {
     Trailing(usize),
     /// Property block cannot be walked (unknown identifier: length unknown).
     UnknownProperty(u8),
+    /// The property block itself is well delimited but its contents are broken.
+    InProps(Box<Fatal>),
 }
 
 #[derive(Clone, Debug)]
@@ -661,6 +663,12 @@ impl<'a> Rd<'a> {
     fn props(&mut self, ctx: Ctx) -> Result<Vec<Prop>, Fatal> {
         let len = self.varint("property length")? as usize;
         let block = self.take(len, "property block")?;
+        let (out, mut an) = Self::props_block(block, ctx).map_err(|f| Fatal::InProps(Box::new(f)))?;
+        self.an.append(&mut an);
+        Ok(out)
+    }
+
+    fn props_block(block: &'a [u8], ctx: Ctx) -> Result<(Vec<Prop>, Vec<Anomaly>), Fatal> {
         let mut r = Rd { b: block, i: 0, an: Vec::new() };
         let mut out: Vec<Prop> = Vec::new();
         while r.left() > 0 {
@@ -715,8 +723,7 @@ impl<'a> Rd<'a> {
             }
             out.push(p);
         }
-        self.an.append(&mut r.an);
-        Ok(out)
+        Ok((out, r.an))
     }
 }
 
